@@ -592,6 +592,45 @@ func genC10(r *Rng, tier string, emit func(Case)) {
 		e("blk", []string{"topo", "reverse", "ctor", "random"}[mode]+":shape"+itoa(shape), fa[0], fa[1], fa[2], fa[3], fmtTxs(blk))
 	}
 	e("blk", "empty", "00", "1", "0", "1", "-")
+	// directed: every one of the four ways a transaction can match, alone: txid / output push / spent outpoint /
+	// input-script push; with ordinary inputs and with a coinbase-shaped input (null outpoint)
+	for rep := 0; rep < 6; rep++ {
+		for way := 0; way < 4; way++ {
+			for cb := 0; cb < 2; cb++ {
+				elem := r.Bytes(r.Pick(20, 33, 32))
+				tx := wire.NewMsgTx(1)
+				prev := wire.OutPoint{Hash: *mkHash(r.Bytes(32)), Index: uint32(r.Intn(3))}
+				if cb == 1 {
+					prev = wire.OutPoint{Index: 0xffffffff}
+				}
+				sig := pushOnly(r.Bytes(70))
+				if way == 3 {
+					sig = pushOnly(r.Bytes(4), elem)
+				}
+				tx.AddTxIn(wire.NewTxIn(&prev, sig))
+				out := p2pkh(r.Bytes(20))
+				if way == 1 {
+					out = pushOnly(elem)
+				}
+				tx.AddTxOut(wire.NewTxOut(0, out, wire.TokenData{}))
+				f := bloom.LoadFilter(wire.NewMsgFilterLoad(make([]byte, 128), 4, uint32(r.U64()), wire.BloomUpdateType(r.Intn(3))))
+				switch way {
+				case 0:
+					h := tx.TxHash()
+					f.AddHash(&h)
+				case 2:
+					f.AddOutPoint(&prev)
+				default:
+					f.Add(elem)
+				}
+				m := f.MsgFilterLoad()
+				fa := []string{hx(m.Filter), "4", u64s(uint64(m.Tweak)), itoa(int(m.Flags))}
+				cls := "way:" + []string{"txid", "outpush", "outpoint", "inpush"}[way] + []string{"", ":coinbase"}[cb]
+				e("txm", cls, fa[0], fa[1], fa[2], fa[3], fmtTxs([]*wire.MsgTx{tx}))
+				e("blk", cls, fa[0], fa[1], fa[2], fa[3], fmtTxs([]*wire.MsgTx{tx}))
+			}
+		}
+	}
 	// directed: a parent whose output of each script class matches the filter through its pushed data, a child
 	// that spends exactly that output and matches in no other way, a grandchild spending the child; every
 	// update flag; child placed before / after the parent
